@@ -167,10 +167,17 @@ def _membership(container, name, where):
 def library_view(client):
     """The same view read from an indi.client.BaseClient through its public API."""
     out = {}
-    for dn in list(client.list_devices()):
+    from harness.core import Failure
+
+    def _names(x, where):
+        if not isinstance(x, (tuple, list)) and not hasattr(x, "__iter__"):
+            raise Failure("mirror:listing-not-a-sequence", f"{where}: the listing is {x!r}")
+        return list(x)
+
+    for dn in _names(client.list_devices(), "client.list_devices()"):
         _membership(client, dn, "client")
         dev = client[dn]
-        names = dev.list_vectors()
+        names = _names(dev.list_vectors(), f"{dn}.list_vectors()")
         if not names:
             continue
         out[dn] = {}
@@ -179,7 +186,7 @@ def library_view(client):
             kind = type(v).__name__[: -len("Vector")]
             els = {}
             _membership(dev, pn, f"{dn}")
-            for en in v.list_elements():
+            for en in _names(v.list_elements(), f"{dn}.{pn}.list_elements()"):
                 _membership(v, en, f"{dn}.{pn}")
                 e = v[en]
                 val = e.value
